@@ -12,7 +12,7 @@ SPEC = {
             "single-atom constraint whose variables are bound to tree leaves carrying the strings, and "
             "SMTFormula.substitute_expressions reaching the ground auto-evaluation branch. Oracle: Z3 validity of the same "
             "term. distinct = distinct (operator set, entry point, verdict) classes",
-    "minimum": {"quick": {"judged": 5000, "via_is_valid": 3000, "via_evaluate": 400, "via_substitute": 400, "ops_with_50_judged": 24},
+    "minimum": {"quick": {"judged": 5000, "via_is_valid": 3000, "via_evaluate": 400, "via_substitute": 400, "ops_with_50_judged": 24, "via_is_valid_in_situ": 20},
                 "thorough": {"judged": 150000, "via_evaluate": 8000, "via_substitute": 8000, "ops_with_50_judged": 40}},
     "assumptions": ["Z3 (the wheel in /venv) is the meaning of SMT-LIB atoms: valid iff the negation is unsat; undecided => inconclusive",
                     "str.to.int is applied only to unsigned decimal numerals in judged cases; signed numerals are executed and only "
@@ -365,9 +365,33 @@ def via_evaluate(ctx, t, env):
     return verdict_of(st, r)
 
 
+def insitu_slice(ctx, rng):
+    """is_valid calls made by the solver / evaluator on the atoms of real constraints"""
+    from islamon import insitu
+    fam, gname, g, log = insitu.solver_workload(ctx, rng, ["is_valid"], nsolve=3, random_share=0.5)
+    ctx.ev()
+    seen = set()
+    for sexpr, got in log["is_valid"][:300]:
+        if sexpr in seen or "str.to_int" in sexpr and not __import__("re").search(r'str\.to_int "\d+"', sexpr):
+            continue
+        seen.add(sexpr)
+        exp = R4.truth(sexpr.replace("\n", " "))
+        if exp is None:
+            ctx.inconclusive("in-situ-atom-not-ground-or-undecided")
+            continue
+        ctx.count("via_is_valid_in_situ")
+        if got == "U" or (got == "T") != exp:
+            ctx.violation(None, f"is_valid [in situ, called by the solver] = {got}, Z3 {exp}", {"sexpr": sexpr[:400], "family": fam, "entry": "in-situ"})
+        else:
+            ctx.held(("in-situ", __import__("re").sub(r'"[^"]*"|\d+', "_", sexpr)[:120], exp))
+
+
 def run(ctx):
     rng = ctx.rng
     while ctx.running():
+        if rng.random() < 0.01:
+            insitu_slice(ctx, rng)
+            continue
         route = rng.random()
         if route < 0.7:
             gen = SA.Gen(rng, nvars=0)
